@@ -17,10 +17,12 @@ package props
 
 import (
 	"bytes"
+	"encoding/hex"
 	"encoding/json"
 	"fmt"
 	"os"
 	"os/exec"
+	"strconv"
 	"strings"
 
 	"verif/internal/gen"
@@ -592,6 +594,35 @@ func c11RunRandom(c *mon.Ctx, per int) {
 		if n == 0 && c.Unit%40 == 0 {
 			c.Sample("random history", map[string]any{"history": fmt.Sprint(ops), "roots_of_family_0": p.Families[0].Roots, "types_of_family_0": len(p.Families[0].Types)})
 		}
+		// partial use: the pool's documents (valid or not) read lexeme by lexeme by turns; each
+		// stream must equal the stream of the same text read alone
+		if n%5 == 4 && len(p.Docs) >= 2 {
+			var group [][]byte
+			for _, i := range r.Perm(len(p.Docs)) {
+				if len(group) < 3 && len(p.Docs[i].Text) <= 400 {
+					group = append(group, []byte(p.Docs[i].Text))
+				}
+			}
+			if len(group) >= 2 {
+				total := 0
+				for _, t := range group {
+					total += len(t)
+				}
+				sched := make([]byte, total+8)
+				for i := range sched {
+					sched[i] = byte(r.Intn(len(group)))
+				}
+				c.Eval(1)
+				c.Count("document groups read lexeme by lexeme by turns", 1)
+				if d := c06Lockstep(group, sched); d != "" {
+					cs := c06Case{Hex: hex.EncodeToString(group[0]), Text: strconv.Quote(string(group[0])), Schedule: sched}
+					for _, t := range group[1:] {
+						cs.Others = append(cs.Others, hex.EncodeToString(t))
+					}
+					c.Violate("lockstep", cs, c06LockstepOK, d, "a Document's lexeme stream depends on another Document being read in between")
+				}
+			}
+		}
 	}
 }
 
@@ -884,6 +915,7 @@ func init() {
 			"history":        c11ReplayHistory,
 			"aliasing":       c11ReplayHistory,
 			"unstable-fresh": c11ReplayHistory,
+			"lockstep":       c06ReplayLockstep,
 			"maporder": func(raw json.RawMessage) string {
 				if s, ok := c11ReplayInRW("maporder", raw); ok {
 					return s
